@@ -72,7 +72,7 @@ pub fn check_ledger_vs_model(case: &LedgerCase, obs: &mut Obs, what: &CmpWhat, c
         if tool.err.is_some() { obs.class("tool-rejects(skip-sec)"); continue; }
         if model.err.is_some() { obs.class("model-rejects-tool-accepts(skip-sec)"); continue; }
         let n = normalize_all(&tool.deltas);
-        if let Err(e) = compare(&model.rows, &n, false, what) { return Verdict::Fail(format!("{sec}: {e}\nopening={:?}\n{csv}", case.opening)); }
+        if let Err((e, at)) = crate::cmp::compare_at(&model.rows, &n, false, what) { return ledger_mismatch_verdict(&sec, &e, at, &rows, &model, &format!("opening={:?}\n{csv}", case.opening)); }
         classify(&rows, &model, obs);
         any = true;
     }
@@ -140,7 +140,7 @@ fn check_declared(case: &LedgerCase, obs: &mut Obs) -> Verdict {
     let Some(tool) = res.get("FOO") else { return Verdict::Fail(format!("security missing\n{csv}")); };
     let n = normalize_all(&tool.deltas);
     match (&model.err, &tool.err) {
-        (None, None) => { if let Err(e) = compare(&model.rows, &n, false, &CmpWhat::all()) { return Verdict::Fail(format!("{e}\n{csv}")); } }
+        (None, None) => { if let Err((e, at)) = crate::cmp::compare_at(&model.rows, &n, false, &CmpWhat::all()) { return ledger_mismatch_verdict("FOO", &e, at, rows, &model, csv); } }
         (Some(me), Some(msg)) => {
             if let Err(e) = compare(&model.rows, &n, true, &CmpWhat::all()) { return Verdict::Fail(format!("prefix before rejection: {e}\n{csv}")); }
             use crate::model::Cause::*;
